@@ -82,8 +82,8 @@ constexpr auto is_extreme(Char c) -> bool
 
 inline auto num(std::size_t v) -> std::string { return v == knpos ? std::string("npos") : std::to_string(v); }
 
-template <typename Char>
-auto show(std::basic_string<Char> const& s) -> std::string
+template <typename Char, typename Tr>
+auto show(std::basic_string<Char, Tr> const& s) -> std::string
 {
     std::string o = "\"";
     for (auto c : s) {
@@ -113,8 +113,8 @@ struct Buf {
     [[nodiscard]] auto get() const -> Char const* { return p.get(); }
     [[nodiscard]] auto end() const -> Char const* { return p.get() + n; }
 };
-template <typename Char>
-auto pbuf(std::basic_string<Char> const& s) -> Buf<Char> // pointer + count argument: exactly s.size() characters
+template <typename Char, typename Tr>
+auto pbuf(std::basic_string<Char, Tr> const& s) -> Buf<Char> // pointer + count argument: exactly s.size() characters
 {
     Buf<Char> b;
     b.n = s.size();
@@ -122,8 +122,8 @@ auto pbuf(std::basic_string<Char> const& s) -> Buf<Char> // pointer + count argu
     for (std::size_t i = 0; i < s.size(); ++i) { b.p[i] = s[i]; }
     return b;
 }
-template <typename Char>
-auto cbuf(std::basic_string<Char> const& s) -> Buf<Char> // C string argument: s (no embedded NUL) + terminator
+template <typename Char, typename Tr>
+auto cbuf(std::basic_string<Char, Tr> const& s) -> Buf<Char> // C string argument: s (no embedded NUL) + terminator
 {
     Buf<Char> b;
     b.n = s.size();
@@ -132,25 +132,131 @@ auto cbuf(std::basic_string<Char> const& s) -> Buf<Char> // C string argument: s
     b.p[s.size()] = Char(0);
     return b;
 }
-template <typename Char>
-auto no_nul(std::basic_string<Char> s) -> std::basic_string<Char> // C-string arguments cannot carry embedded NULs
+template <typename Char, typename Tr>
+auto no_nul(std::basic_string<Char, Tr> s) -> std::basic_string<Char, Tr> // C-string arguments cannot carry embedded NULs
 {
     for (auto& c : s) {
         if (c == Char(0)) { c = static_cast<Char>('c'); }
     }
     return s;
 }
-template <typename Char>
-auto gen_str(std::uint32_t seed, std::size_t len) -> std::basic_string<Char>
+// alphabet of the case-insensitive-traits configuration: the extreme code units are replaced by upper-case letters, so
+// strings that are equal under the traits but not code unit for code unit are common
+template <typename Char, bool CI>
+constexpr auto alpha_cfg(std::uint32_t v) -> Char
 {
-    std::basic_string<Char> s;
+    if constexpr (CI) {
+        switch (v % 16) {
+        case 8: return static_cast<Char>('A');
+        case 9: return static_cast<Char>('B');
+        case 10: return static_cast<Char>('C');
+        case 11: return static_cast<Char>('A');
+        case 12: return static_cast<Char>('B');
+        case 15: return static_cast<Char>('Z');
+        default: break;
+        }
+    }
+    return alpha<Char>(v);
+}
+template <typename M, bool CI>
+auto gen_str(std::uint32_t seed, std::size_t len) -> M
+{
+    M s;
     std::uint32_t z = seed * 2654435761U + 12345U;
     for (std::size_t i = 0; i < len; ++i) {
         z = z * 1664525U + 1013904223U;
-        s.push_back(alpha<Char>(z >> 24));
+        s.push_back(alpha_cfg<typename M::value_type, CI>(z >> 24));
     }
     return s;
 }
+
+// ------------------------------------------------------------------ user-supplied character traits: ASCII case-insensitive
+// (usable by both std::basic_string and etl::basic_inplace_string; eq/lt/compare/find differ from the built-in operators)
+// Deliberately NOT derived from std::char_traits: namespace std must not become an associated namespace of the string (the
+// library's free erase()/erase_if() call begin()/end() unqualified).
+struct ci_traits {
+    using base       = std::char_traits<char>;
+    using char_type  = char;
+    using int_type   = base::int_type;
+    using off_type   = base::off_type;
+    using pos_type   = base::pos_type;
+    using state_type = base::state_type;
+    static constexpr auto assign(char& a, char const& b) noexcept -> void { a = b; }
+    static constexpr auto assign(char* s, std::size_t n, char c) -> char* { return base::assign(s, n, c); }
+    static constexpr auto length(char const* s) -> std::size_t { return base::length(s); }
+    static constexpr auto move(char* d, char const* s, std::size_t n) -> char* { return base::move(d, s, n); }
+    static constexpr auto copy(char* d, char const* s, std::size_t n) -> char* { return base::copy(d, s, n); }
+    static constexpr auto to_char_type(int_type c) noexcept -> char { return base::to_char_type(c); }
+    static constexpr auto to_int_type(char c) noexcept -> int_type { return base::to_int_type(c); }
+    static constexpr auto eq_int_type(int_type a, int_type b) noexcept -> bool { return base::eq_int_type(a, b); }
+    static constexpr auto eof() noexcept -> int_type { return base::eof(); }
+    static constexpr auto not_eof(int_type c) noexcept -> int_type { return base::not_eof(c); }
+    static constexpr auto fold(char c) noexcept -> unsigned char { return static_cast<unsigned char>((c >= 'A' && c <= 'Z') ? c - 'A' + 'a' : c); }
+    static constexpr auto eq(char a, char b) noexcept -> bool { return fold(a) == fold(b); }
+    static constexpr auto lt(char a, char b) noexcept -> bool { return fold(a) < fold(b); }
+    static constexpr auto compare(char const* a, char const* b, std::size_t n) -> int
+    {
+        for (std::size_t i = 0; i < n; ++i) {
+            if (lt(a[i], b[i])) { return -1; }
+            if (lt(b[i], a[i])) { return 1; }
+        }
+        return 0;
+    }
+    static constexpr auto find(char const* s, std::size_t n, char const& c) -> char const*
+    {
+        for (std::size_t i = 0; i < n; ++i) {
+            if (eq(s[i], c)) { return s + i; }
+        }
+        return nullptr;
+    }
+};
+
+// ------------------------------------------------------------------ a genuine single-pass input iterator (like
+// std::istream_iterator): all copies share one FIFO, ++ consumes the front element, * returns the element cached when the
+// iterator reached it.  An implementation that walks the range twice (distance() first) sees a drained source.
+template <typename Char>
+struct Fifo {
+    Char const* p{nullptr};
+    Char const* e{nullptr};
+    std::size_t pops{0};
+};
+template <typename Char>
+struct FifoIt {
+    using iterator_category = vf::it::input_tag; // derives from etl::input_iterator_tag and std::input_iterator_tag only
+    using value_type        = Char;
+    using difference_type   = std::ptrdiff_t;
+    using pointer           = Char const*;
+    using reference         = Char const&;
+    Fifo<Char>* src{nullptr}; // nullptr: the end iterator
+    Char cur{};
+    FifoIt() = default;
+    explicit FifoIt(Fifo<Char>* f) : src{(f != nullptr && f->p != f->e) ? f : nullptr}, cur{src != nullptr ? *f->p : Char()} { }
+    auto operator*() const -> reference { return cur; }
+    auto operator->() const -> pointer { return &cur; }
+    auto operator++() -> FifoIt&
+    {
+        if (src != nullptr) {
+            if (src->p != src->e) {
+                ++src->p;
+                ++src->pops;
+            }
+            if (src->p == src->e) {
+                src = nullptr;
+            } else {
+                cur = *src->p;
+            }
+        }
+        return *this;
+    }
+    auto operator++(int) -> FifoIt
+    {
+        auto t = *this;
+        ++*this;
+        return t;
+    }
+    friend auto operator==(FifoIt const& a, FifoIt const& b) -> bool { return a.src == b.src; }
+    friend auto operator!=(FifoIt const& a, FifoIt const& b) -> bool { return a.src != b.src; }
+};
 
 // ------------------------------------------------------------------ raw argument -> boundary-biased value
 // (raw arguments are mostly tiny numbers: the "random" branches spread them over the whole range by hashing)
@@ -179,19 +285,27 @@ inline auto qpos(std::uint32_t raw, std::size_t size) -> std::size_t
     default: return spread(raw) % (size + 2);
     }
 }
-// count argument relative to what is available behind pos (0, 1, avail-1, avail, avail+1, npos, random)
-inline auto qcount(std::uint32_t raw, std::size_t avail) -> std::size_t
+// count argument relative to what is available behind pos: 0, 1, avail-1, avail, avail+1, npos and HUGE counts that are not
+// npos (npos-1, npos-2, npos-pos, npos-pos+1 [pos+count wraps to 0], SIZE_MAX/2, SIZE_MAX/2+1): std clamps them all
+inline auto qcount(std::uint32_t raw, std::size_t avail, std::size_t pos = 0) -> std::size_t
 {
-    switch (raw % 10) {
+    switch (raw % 16) {
     case 0: return 0;
     case 1: return 1;
     case 2: return avail >= 1 ? avail - 1 : 0;
     case 3: return avail;
     case 4: return avail + 1;
     case 5: return knpos;
+    case 6: return knpos - 1;
+    case 7: return knpos - pos;
+    case 8: return pos >= 1 ? knpos - pos + 1 : knpos - 2;
+    case 9: return knpos / 2;
+    case 10: return knpos / 2 + 1;
+    case 11: return knpos - 2;
     default: return spread(raw) % (avail + 2);
     }
 }
+inline auto is_huge(std::size_t cnt) -> bool { return cnt != knpos && cnt >= knpos / 2; }
 // length that fits into `room` (0, 1, room-1, room, random)
 inline auto fitlen(std::uint32_t raw, std::size_t room) -> std::size_t
 {
@@ -247,7 +361,8 @@ inline auto sgn(int v) -> int { return v < 0 ? -1 : (v > 0 ? 1 : 0); }
     /* added later (codes are only ever appended: stored cases keep their meaning) */                                                                                                                 \
     X(ALIAS_ASSIGN_PTR_N, "s.assign(s.data()+k,n)") X(ALIAS_ASSIGN_CSTR, "s.assign(s.c_str()+k)") X(ALIAS_OPEQ_CSTR, "s = s.c_str()+k") X(ALIAS_ASSIGN_MISC, "assign/operator= from a range or view of s itself") \
     X(ALIAS_APPEND, "append/+=/push_back with an argument inside s itself") X(ALIAS_INSERT, "insert with an argument inside s itself") X(ALIAS_REPLACE, "replace with an argument inside s itself")        \
-    X(ALIAS_QUERY, "find*/compare/starts_with... with an argument inside s itself") X(OTHERCAP, "operations with a string of another capacity") X(FREE_ERASE_TYPED, "erase/erase_if(str, value of another type)")
+    X(ALIAS_QUERY, "find*/compare/starts_with... with an argument inside s itself") X(OTHERCAP, "operations with a string of another capacity") X(FREE_ERASE_TYPED, "erase/erase_if(str, value of another type)") \
+    X(APPEND_INPUT_IT, "append(first,last) with single-pass input iterators")
 
 enum Code : std::uint32_t {
 #define X(id, name) id,
@@ -267,5 +382,8 @@ constexpr char const* tag_rfind   = "string.rfind.default_pos";
 // replace(..) copies the replacement forward in place: wrong when the replacement lies inside the string itself and starts
 // before the replaced range (only needed until the repair design/patches/C04-42 is committed)
 constexpr char const* tag_replace_overlap = "string.replace.self_overlap";
+// find / find_first_of / find_last_of / find_last_not_of / contains compare characters with the built-in == instead of
+// Traits::eq: only visible with user-supplied traits (needed until design/patches/C04-43 is committed)
+constexpr char const* tag_search_traits = "string.search.traits_eq";
 
 } // namespace c04
